@@ -145,6 +145,11 @@ def check(ctx: Ctx) -> str:
     ctx.check("cache is None" in s and "type(cache) is dict" in s and "LRUCache(cache.capacity)" in s, "copy_cache", "environment:copy_cache", "mirror", "copy_cache must return None / {} / LRUCache(cache.capacity)", cp.loc())
     init = repo.func("environment:Environment.__init__")
     ctx.check("self.cache = create_cache(cache_size)" in ast.unparse(init.node), "init:cache", "environment:Environment.__init__", "cache creation", "Environment.__init__ must build its cache with create_cache(cache_size)", init.loc())
+    # a bounded template cache evicts the least recently used template: that clause is the
+    # LRUCache primitives' (shape, orientation, locking), owned by C26
+    from . import c26
+
+    ctx.run_imported("C26", {"R1", "R2", "R3"}, c26.check)
     return __doc__ or ""
 
 
